@@ -1727,3 +1727,41 @@ func H_C06_restartAfterFault(splitI int) {
 	}
 	verifAssert(vsHas(f.split_metadata, CompleteFile), "C06: work that succeeded is not redone by a restart")
 }
+
+// H_C05_chunkIdentity(n): a splitting stage whose split defined n chunks.  The
+// running mrp creates the chunk objects in doChunks; an mrp re-attached to the
+// same directory creates them in NewFork / updateId from the _stage_defs on
+// disk.
+//
+//	C05: both derive the same directory, name and journal name for every chunk,
+//	     so that the completion a chunk recorded before the interruption is
+//	     found again (and the chunk is not executed a second time).
+func H_C05_chunkIdentity(n int) {
+	disableUniquification = false
+	top := vsTop()
+	node, f := vsStageNode(top, "S", true)
+	vsDisabled, vsResolveErr, vsDefsErr, vsReadErr = false, false, false, false
+	vsOutsOK, vsChunkOutOK = true, true
+	vsChunks = n
+	// the split job has completed and left its _stage_defs
+	for _, name := range []MetadataFileName{JobInfoFile, LogFile, CompleteFile, StageDefsFile} {
+		f.split_metadata.contents[name] = struct{}{}
+	}
+	f.split_has_run = true
+	node.state = Running
+	f.step()
+	verifCover("chunks created by the running mrp")
+	verifAssert(len(f.chunks) == n, "C03: exactly the chunks the split defined are created")
+	// the re-attached mrp builds a new fork object for the same call
+	g := NewFork(node, 0, nil)
+	verifCover("chunks created on re-attach")
+	verifAssert(len(g.chunks) == n, "C05: a re-attached mrp finds exactly the chunks the split defined")
+	if len(g.chunks) != len(f.chunks) {
+		return
+	}
+	for i := range f.chunks {
+		a, b := f.chunks[i].metadata, g.chunks[i].metadata
+		verifAssert(a.finalPath == b.finalPath, "C05: a re-attached mrp looks for each chunk in the directory the interrupted mrp created for it")
+		verifAssert(f.chunks[i].fqname == g.chunks[i].fqname && a.journalPath == b.journalPath, "C05/C11: a chunk keeps its name and journal name across a restart")
+	}
+}
